@@ -58,7 +58,8 @@ DEFECTS = ['close_paused_writer', 'stale_reader', 'double_feed',
            'resume_while_paused', 'link_order', 'drain_close', 'late_eof']
 # monitor clauses a defect situation can account for (a crash of the
 # connection takes everything after it along)
-CRASH = {'no-crash', 'nothing-lost', 'eof-complete', 'waiters-resolve',
+CRASH = {'no-crash', 'nothing-lost', 'nothing-stuck', 'eof-complete',
+         'waiters-resolve',
          'exit-after-output', 'exit-report'}
 EXPLAINS = {
     'close_paused_writer': CRASH | {'eof-rule', 'no-write-after-eof'},
@@ -178,10 +179,9 @@ def jobs_for(tier):
     J.append(Job('cB2', S(InDT='{"x", "y"}', MaxN=1 if q else 2, MaxRedirB=2,
                           TKinds='{"stream", "merge", "file"}' if q else
                           '{"stream", "merge", "null", "file"}',
-                          RESet='{TRUE}' if q else '{TRUE, FALSE}',
-                          MaxAllowOps=1 if q else 2, MaxCollect=0 if q else 1,
+                          RESet='{TRUE}', MaxAllowOps=1, MaxCollect=0,
                           W1=1 if q else 2, QH=1 if q else 2, QL=1 if q else 2,
-                          WithWait='TRUE', WithExit='FALSE' if q else 'TRUE'),
+                          WithWait='TRUE', WithExit='FALSE'),
                  cases=True, workers=3 if q else 6, heap='3g' if q else '6g'))
     J.append(Job('cB3', S(MaxN=2, TKinds='{"stream", "file"}', MaxRedirB=1,
                           WithBClose='TRUE', RESet='{TRUE}',
@@ -317,8 +317,53 @@ def jobs_for(tier):
     return J
 
 
+# Regression schedules (labels only: judged by the monitors): the minimal
+# history of every defect situation found on the pinned tree.
+_B = dict(HasB=True, HasC=False, InDT=['x'], OutDT=['x'], W1=2, W2=2, CH=2,
+          CL=1, QH=2, QL=2)
+_C = dict(_B, HasB=False, HasC=True)
+_J = dict(_B, HasC=True, InDT=['x', 'y'], W1=2, W2=1, CH=0, CL=0)
+REGRESSIONS = [
+    ('close_paused_writer', 'client', _B,
+     [['emit', 'x'], ['emit', 'x'],
+      ['redirb', 'x', 'stream', False, 'x', True, 'w'], ['allow', 1, 0],
+      ['deliver', 'EB', 2], ['deliver', 'BE', 1], ['emit', 'x'],
+      ['emitclose'], ['deliver', 'EB', 2], ['deliver', 'BE', 1],
+      ['redirb', 'x', 'file', False, 'x', True, 'w']]),
+    ('close_paused_writer', 'client', _B,
+     [['emit', 'x'], ['emit', 'x'],
+      ['redirb', 'x', 'stream', False, 'x', True, 'w'], ['allow', 1, 0],
+      ['deliver', 'EB', 2], ['emitclose'],
+      ['redirb', 'x', 'stream', False, 'x', True, 'w'], ['deliver', 'EB', 1],
+      ['deliver', 'BE', 2], ['allow', 1, 9]]),
+    ('stale_reader', 'client', _C,
+     [['redirc', 'x', 'stream', False, 0], ['redirc', 'x', 'stream', True, 0],
+      ['feedeof', 1], ['feed', 2]]),
+    ('stale_reader', 'client', _C,
+     [['redirc', 'x', 'stream', True, 0], ['feed', 1],
+      ['redirc', 'x', 'file', False, 2], ['feedeof', 1]]),
+    ('double_feed', 'server', dict(_C, OutDT=['x', 'y']),
+     [['redirc', 'y', 'stream', False, 0], ['redirc', 'x', 'stream', False, 0]]
+     + [['feed', 2]] * 5 + [['deliver', 'CK', 2], ['deliver', 'KC', 1],
+                            ['feed', 1], ['feed', 2]]),
+    ('drain_close', 'client', _C,
+     [['redirc', 'x', 'stream', False, 0], ['drain', 'x'], ['kclose'],
+      ['deliver', 'KC', 1]]),
+    ('late_eof', 'client', dict(_J, CH=2, CL=1, W2=2),
+     [['emit', 'x'], ['emiteof'], ['deliver', 'EB', 2],
+      ['redirb', 'x', 'proc', False, 'x', True, 'w']]),
+    ('link_order', 'client', _J,
+     [['emit', 'x'], ['emit', 'y'], ['deliver', 'EB', 1], ['deliver', 'EB', 1],
+      ['deliver', 'BE', 1], ['emit', 'x'], ['emit', 'y'], ['deliver', 'EB', 1],
+      ['deliver', 'EB', 1], ['redirb', 'x', 'proc', False, 'x', False, 'w'],
+      ['redirb', 'y', 'proc', False, 'x', False, 'r']]),
+]
+
+
 def trigs_of(case):
     from harness.drivers import process as drv
+    if not case or case[-1][1] is None:
+        return []
     return [t for t, v in zip(drv.TRIGS, case[-1][1][6]) if v]
 
 
@@ -373,7 +418,7 @@ class Replayer:
     def close(self):
         self.world.close()
 
-    def one(self, name, case, consts, role, idx, report=True):
+    def one(self, name, case, consts, role, idx, report=True, trigs=None):
         ctx, drv = self.ctx, self.drv
         text = bool(idx % 2)
         try:
@@ -392,7 +437,7 @@ class Replayer:
         for l in res['labels']:
             self.labels[l[0]] = self.labels.get(l[0], 0) + 1
         ctx.count(case_key(name, case), nontrivial=len(case) >= 4)
-        trigs = res['trig'] or trigs_of(case)
+        trigs = trigs or res['trig'] or trigs_of(case)
         for t in trigs:
             self.trig_seen[t] = self.trig_seen.get(t, 0) + 1
         defect = next((d for d in DEFECTS if d in trigs), 'none')
@@ -401,7 +446,7 @@ class Replayer:
             ctx.sample({'job': name, 'role': role, 'text': text,
                         'labels': res['labels'][:30], 'defect': defect})
         rp = {'kind': 'case', 'job': name, 'case': case, 'consts': consts,
-              'role': role, 'text': text}
+              'role': role, 'text': text, 'trigs': trigs}
         for clause, detail in res['violations']:
             cause = attribute(trigs, clause)
             key = (clause, cause, role, half)
@@ -502,6 +547,19 @@ def do_replay_file(ctx, drv, path):
         rec = json.load(f)
     rp = rec['replay']
     world = drv.World(tlc.WORK)
+    if rp['kind'] == 'probe':
+        try:
+            out = drv.probe(world, rp['probe'], rp['role'], W1=rp['W1'])
+        finally:
+            world.close()
+        print('probe:', out)
+        for clause, detail, defect in out:
+            ctx.violation({'module': 'Process', 'clause': clause,
+                           'defect': defect, 'role': rp['role'],
+                           'half': 'probe', 'probe': rp['probe']}, detail,
+                          replay=rp)
+        ctx.count('replay')
+        return
     try:
         res = drv.replay(world, rp['case'], rp['consts'], role=rp['role'],
                          text=rp['text'])
@@ -510,7 +568,7 @@ def do_replay_file(ctx, drv, path):
     print('labels:', res['labels'])
     print('divergences:', res['divergences'])
     print('violations:', res['violations'])
-    trigs = res['trig'] or trigs_of(rp['case'])
+    trigs = rp.get('trigs') or res['trig'] or trigs_of(rp['case'])
     half = ('B' if rp['consts']['HasB'] else '') + \
         ('C' if rp['consts']['HasC'] else '')
     for clause, detail in res['violations']:
@@ -539,6 +597,12 @@ def main(ctx):
     total = 0
     cap = 420 if quick else 6000
     try:
+        # ---- regression schedules ----
+        for i, (defect, role, consts, labels) in enumerate(REGRESSIONS):
+            for text in (0, 1):
+                rp.one('regress', [[l, None] for l in labels], consts, role,
+                       text, trigs=[defect])
+                total += 1
         for j in jobs:
             if not j.cases:
                 continue
@@ -567,6 +631,24 @@ def main(ctx):
             total += len(sel)
             ctx.notes.append(f'{j.name} ({j.role}): {len(cases)} behaviours '
                              f'generated, {len(sel)} replayed')
+        # ---- back pressure probes (fast producer, consumer not reading) ----
+        nprobe = 0
+        for pname in drv.PROBES:
+            for role in ('client', 'server'):
+                for w1 in (1, 2):
+                    for clause, detail, defect in drv.probe(
+                            rp.world, pname, role, W1=w1):
+                        ctx.violation(
+                            {'module': 'Process', 'clause': clause,
+                             'defect': defect, 'role': role, 'half': 'probe',
+                             'probe': pname},
+                            f'{clause} [probe {pname}/{role}/W1={w1}] {detail}',
+                            replay={'kind': 'probe', 'probe': pname,
+                                    'role': role, 'W1': w1})
+                    nprobe += 1
+                    ctx.count(f'probe:{pname}:{role}:{w1}')
+        total += nprobe
+        ctx.notes.append(f'{nprobe} back pressure probes run')
         caught = selftest(ctx, rp, byname)
         ctx.notes.append('self-test mutants caught: ' + '; '.join(caught))
     finally:
